@@ -5,9 +5,10 @@ D-a  R-PURE: no API-reachable code mutates an object that aliases an argument of
 D-b  R-MEMO: every memoised stage of shex_graph/profile_graph either does not depend on a call
      argument or compares a stored copy of it in its guard; a stage whose run method accumulates
      into its own object may only be launched under a first-run guard;
-D-c  R-ORDER: buffered writer - the target file is truncated once before anything is written and
-     appended to afterwards, a size-triggered flush is followed by a buffer reset on every path,
-     the final flush follows the last line, both sinks consume the same buffer;
+D-c  R-PROTO: buffered writer - serialize_shapes is interpreted abstractly on four symbolic namespaces with the
+     buffer threshold scaled to 2 and as written, for the string and the file channel: chunked == single write-out,
+     file == string, every line once, first open truncates; R-SINK: only the protocol's own methods touch the
+     channel state;
 D-d  R-GLOBAL: no class-level or module-level mutable state reaches the output.
 Undecided: byte equality of concrete outputs."""
 import ast
@@ -181,97 +182,12 @@ def accumulating_stage(ctx, launch):
     return None
 
 
-def _must_reset(ctx, f, field, stmts, depth=0):
-    """Every path through stmts assigns self.<field> = [] / calls .clear() (through self-calls as well)."""
-    for st in stmts:
-        if isinstance(st, ast.Assign) and any(is_self_attr(t, field) for t in st.targets) \
-                and isinstance(st.value, (ast.List, ast.Call)) and not getattr(st.value, "elts", None):
-            return True
-        if isinstance(st, ast.Expr) and isinstance(st.value, ast.Call) and isinstance(st.value.func, ast.Attribute):
-            fn = st.value.func
-            if fn.attr == "clear" and is_self_attr(fn.value, field):
-                return True
-            if is_self_attr(fn) and depth < 3 and f.cls is not None and f.cls.find_method(fn.attr) is not None:
-                m = f.cls.find_method(fn.attr)
-                if _must_reset(ctx, m, field, m.node.body, depth + 1):
-                    return True
-        if isinstance(st, ast.If) and st.orelse and _must_reset(ctx, f, field, st.body, depth) \
-                and _must_reset(ctx, f, field, st.orelse, depth):
-            return True
-        if isinstance(st, ast.With) and _must_reset(ctx, f, field, st.body, depth):
-            return True
-    return False
-
-
 def writer_obligations(ctx, clause):
-    p = ctx.p
-    obs = []
-    wl, wb, ser, fl = (p.func(SX + n) for n in ("_write_line", "_write_lines_buffer", "serialize_shapes", "_flush"))
-    rst = p.funcs.get(SX + "_reset_target_file")
-    # 1. size-triggered flush in _write_line is followed by a reset on every path
-    flush_ifs = [x for x in walk_own(wl.node) if isinstance(x, ast.If) and any(
-        isinstance(y, ast.Call) and isinstance(y.func, ast.Attribute) and y.func.attr == "_write_lines_buffer" for y in ast.walk(x))]
-    if not flush_ifs:
-        raise AnalysisError("size-triggered flush not found in ShexSerializer._write_line")
-    for x in flush_ifs:
-        ok = _must_reset(ctx, wl, "_lines_buffer", x.body)
-        obs.append(Ob(clause, "R-ORDER", "R-ORDER|flush-then-reset|ShexSerializer._write_line", wl.loc(x), ok,
-                      "after the size-triggered flush the buffer is emptied on every path (string and file sink)" if ok else
-                      "after the size-triggered flush the buffer is not emptied on every path: lines already written are written "
-                      "again by the next flush"))
-    # 2. open modes: exactly one truncating open, before any write; the flush appends
-    def opens(f):
-        return [(n, n.args[1].value if len(n.args) > 1 and isinstance(n.args[1], ast.Constant) else None)
-                for n in walk_own(f.node) if isinstance(n, ast.Call) and isinstance(n.func, ast.Name) and n.func.id == "open"]
-    wb_modes = [m for _, m in opens(wb)]
-    ok = wb_modes == ["a"]
-    obs.append(Ob(clause, "R-ORDER", "R-ORDER|flush-appends|ShexSerializer._write_lines_buffer", wb.loc(), ok,
-                  "each flush appends to the target file" if ok else
-                  "_write_lines_buffer opens the target with mode(s) %s: it runs once per 5000 lines, so every flush after the first "
-                  "overwrites what was written before" % wb_modes))
-    rs_modes = [m for _, m in opens(rst)] if rst is not None else []
-    first_call = None
-    for st in ser.node.body:
-        if isinstance(st, ast.Expr) and isinstance(st.value, ast.Constant):
-            continue
-        first_call = st
-        break
-    ok = rs_modes == ["w"] and isinstance(first_call, ast.Expr) and isinstance(first_call.value, ast.Call) \
-        and isinstance(first_call.value.func, ast.Attribute) and first_call.value.func.attr == "_reset_target_file"
-    obs.append(Ob(clause, "R-ORDER", "R-ORDER|truncate-first|ShexSerializer.serialize_shapes", ser.loc(), ok,
-                  "the target file is truncated once, before anything is written" if ok else
-                  "serialize_shapes does not start by truncating the target file (modes %s)" % rs_modes))
-    # 3. the final flush follows the last _write_line and precedes the return
-    body = ser.node.body
-    idx_flush = [i for i, st in enumerate(body) if isinstance(st, ast.Expr) and isinstance(st.value, ast.Call)
-                 and isinstance(st.value.func, ast.Attribute) and st.value.func.attr == "_flush"]
-    writers = set(ctx.r.reach_from([SX + "_serialize_namespaces", SX + "_serialize_shape"]))
-    idx_write = [i for i, st in enumerate(body) for n in ast.walk(st) if isinstance(n, ast.Call) and isinstance(n.func, ast.Attribute)
-                 and n.func.attr in ("_serialize_namespaces", "_serialize_shape", "_write_line")]
-    ok = len(idx_flush) == 1 and idx_write and max(idx_write) < idx_flush[0] and \
-        any(isinstance(n, ast.Call) and isinstance(n.func, ast.Attribute) and n.func.attr == "_write_lines_buffer" for n in walk_own(fl.node))
-    obs.append(Ob(clause, "R-ORDER", "R-ORDER|final-flush|ShexSerializer.serialize_shapes", ser.loc(), bool(ok),
-                  "the final flush follows the last line written" if ok else "the final flush does not follow every line-producing step"))
-    # 4. who may write the sinks
-    for f in p.funcs.values():
-        if f.cls is None or f.cls.name != "ShexSerializer":
-            continue
-        for n in walk_own(f.node):
-            if isinstance(n, (ast.Assign, ast.AugAssign)):
-                for t in (n.targets if isinstance(n, ast.Assign) else [n.target]):
-                    if is_self_attr(t, "_string_result") and f.name not in ("__init__", "_write_lines_buffer", "_annotate_wikidata_ids_in_result"):
-                        obs.append(Ob(clause, "R-ORDER", "R-ORDER|string-sink-writer|%s" % f.short, f.loc(n), False,
-                                      "%s writes the string result outside the flush" % f.short))
-    # 5. both sinks consume the whole buffer
-    arms = [x for x in walk_own(wb.node) if isinstance(x, ast.If)]
-    ok = False
-    if len(arms) == 1 and arms[0].orelse:
-        uses = lambda blk: [n for s in blk for n in ast.walk(s) if is_self_attr(n, "_lines_buffer")]
-        sliced = lambda blk: [n for s in blk for n in ast.walk(s) if isinstance(n, ast.Subscript) and is_self_attr(n.value, "_lines_buffer")]
-        ok = bool(uses(arms[0].body)) and bool(uses(arms[0].orelse)) and not sliced(arms[0].body) and not sliced(arms[0].orelse)
-    obs.append(Ob(clause, "R-ORDER", "R-ORDER|sinks-consume-buffer|ShexSerializer._write_lines_buffer", wb.loc(), ok,
-                  "string and file sink both consume the whole buffer" if ok else "the two sinks do not consume the same buffer"))
+    """The channel protocol of the ShExC writer (sa.rules.writer): decided by interpreting the serializer, whatever its helpers are called."""
+    from ..rules import writer
+    obs, info = writer.protocol(ctx, clause)
     return obs
+
 
 
 def global_obligations(ctx, clause):
@@ -312,8 +228,9 @@ def check(ctx, tier):
             "explanation": "Effect and aliasing analysis over the value-flow graph: every mutation site reachable from the API is traced "
                            "back along copy edges to the creation sites / API parameters of the mutated object (caller's arguments must "
                            "not be mutated; serialisers must own what they mutate); memoised stages compare every call argument they "
-                           "depend on and accumulating stage objects run only under a first-run guard; the buffered writer truncates "
-                           "once, appends afterwards, resets after each size-triggered flush on every path and flushes last; no "
+                           "depend on and accumulating stage objects run only under a first-run guard; the buffered ShExC writer is "
+                           "interpreted abstractly (symbolic lines, buffer threshold scaled down): size-triggered write-outs, the "
+                           "file channel and the string channel all yield the same text, each line once; no "
                            "class-level or run-time-rebound module state reaches the result. Byte equality of concrete outputs is not decided.",
             "trusted": ["copy edges of the value-flow graph model aliasing field-based and context-insensitively",
                         "builtin copying calls (dict(), list(), .copy()) produce fresh objects"]}
